@@ -512,6 +512,14 @@ func (fr *Frame) builtin(b *ssa.Builtin, cc *ssa.CallCommon, args []*Value, rt t
 	case "delete", "print", "println", "clear", "close":
 		return nil
 	case "recover":
+		for f := fr; f != nil; f = f.parent {
+			if f.inPanicEdge {
+				// on the modelled recovered-panic path the value is some non-nil interface value
+				v := fr.havocValue("recovered", rt)
+				c.Assume(Neq(v.C[0], IntLit(0)))
+				return v
+			}
+		}
 		return &Value{T: rt, C: []Term{IntLit(0), IntLit(0)}}
 	case "ssa:wrapnilchk":
 		return args[0]
@@ -1420,7 +1428,7 @@ func markFresh(e Expr, f func(string)) {
 func (e *Engine) lockKeys() []string {
 	var out []string
 	for k, cp := range e.heapComps {
-		if cp.Kind == "ghost" && (cp.Path == "held" || strings.HasSuffix(cp.Path, ".held")) && e.heapSorts[k] == ArrOf(SBool) {
+		if cp.Kind == "ghost" && (cp.Path == "held" || strings.HasSuffix(cp.Path, ".held") || cp.Path == "rheld" || strings.HasSuffix(cp.Path, ".rheld")) && e.heapSorts[k] == ArrOf(SBool) {
 			out = append(out, k)
 		}
 	}
